@@ -475,3 +475,11 @@ func H_C01_CheckSequence() {
 		zzverif.Reach("satisfied")
 	}
 }
+
+// C01: the OP_SUCCESSx set of BIP342 for every opcode value.
+func H_C01_OpSuccess() {
+	op := int(zzverif.U8("opcode"))
+	want := op == 80 || op == 98 || op >= 126 && op <= 129 || op >= 131 && op <= 134 || op >= 137 && op <= 138 ||
+		op >= 141 && op <= 142 || op >= 149 && op <= 153 || op >= 187 && op <= 254
+	zzverif.Assert("C01.opsuccess", IsOpSuccess(op) == want)
+}
